@@ -76,10 +76,7 @@ Definition rename_ez (f : Z -> Z) (d : ezdict) : ezdict := map (fun kv => (f (fs
 Definition rename_sub (f : Z -> Z) (x : sub) : sub :=
   {| s_lig := f (s_lig x); s_anc := f (s_anc x); s_tok := s_tok x |}.
 Definition rename_pair (f : Z -> Z) (p : sub * sub) : sub * sub := (rename_sub f (fst p), rename_sub f (snd p)).
-(** every key the annotation can look at *)
-Definition all_keys (g : graph) (ez : ezdict) : list Z :=
-  node_keys g ++ flat_map (fun n => map fst (nadj n)) g ++ map fst ez.
-Definition inj_on (l : list Z) (f : Z -> Z) : Prop := forall x y, In x l -> In y l -> f x = f y -> x = y.
+Definition injective (f : Z -> Z) : Prop := forall x y, f x = f y -> x = y.
 (** monotone on every (neighbour, node) pair: the only comparisons the annotation makes *)
 Definition mono_adj (g : graph) (f : Z -> Z) : Prop :=
   forall n w d, In n g -> In (w, d) (nadj n) -> (w <? nk n) = (f w <? f (nk n)) /\ (nk n <? w) = (f (nk n) <? f w).
